@@ -103,4 +103,44 @@ inline model::Seed seed_showing(const std::array<unsigned, 16>& shown, unsigned 
     std::array<unsigned, 16> c = shown; c[1] ^= coin; c[2] &= ~1u; return model::unpack(c);
 }
 
+
+// ---- seeds described at the level of the 16 word indices.  Conditions a decoder/encoder might (wrongly) special-case are usually
+// stated on the coefficients - a word equal to its neighbour, to the check word, to the coin, index 0 or 2047, all words equal - and a
+// uniform 150-bit secret meets each of them with probability 2^-11 or less per pair.  `shown` are the indices the phrase shows for `coin`.
+struct SeedCoin { std::vector<uint8_t> sec; int bd = 0; unsigned feat = 0; int coin = 0; bool patterned = false; };
+inline unsigned check_of_shown(const std::array<unsigned, 16>& shown, unsigned coin) { return model::pack(seed_showing(shown, coin))[0]; }
+inline Gen<SeedCoin> patterned_seed() {
+    return rc::gen::exec([]() {
+        static const unsigned SPEC[] = {0, 1, 2, 3, 4, 255, 256, 511, 512, 1022, 1023, 1024, 1025, 2046, 2047};
+        auto special = [&]() -> unsigned { return SPEC[*rc::gen::resize(100, rc::gen::inRange<size_t>(0, 15))]; };
+        auto rnd = [&]() -> unsigned { return *rc::gen::resize(100, rc::gen::inRange<unsigned>(0, 2048)); };
+        auto anyv = [&]() -> unsigned { return *rc::gen::resize(100, rc::gen::inRange(0, 3)) ? rnd() : special(); };
+        auto pos = [&](int lo, int hi) -> int { return *rc::gen::resize(100, rc::gen::inRange(lo, hi)); };
+        std::array<unsigned, 16> sh{}; for (int i = 1; i < 16; i++) sh[i] = rnd();
+        unsigned coin = (unsigned)*::g::coin();
+        switch (pos(0, 9)) {
+        case 0: { unsigned v = anyv(); for (int i = 1; i < 16; i++) sh[i] = v; } break;                                            // all data words equal
+        case 1: { unsigned a = special(), b = special(); for (int i = 1; i < 16; i++) sh[i] = pos(0, 2) ? a : b; } break;              // two values only
+        case 2: { unsigned v = anyv(); int n = pos(2, 6); for (int j = 0; j < n; j++) sh[pos(1, 16)] = v; } break;                    // one value at several positions
+        case 3: { unsigned v = anyv(); unsigned step = *rc::gen::element(1u, 2047u, 2u, 64u, 1024u); for (int i = 1; i < 16; i++) sh[i] = (v + (unsigned)(i - 1) * step) & 2047u; } break;   // runs
+        case 4: { for (int i = 1; i < 16; i++) sh[i] = special(); } break;                                                        // boundary indices everywhere
+        case 5: { int p = pos(1, 15); if (pos(0, 2)) sh[p] = special(); sh[p + 1] = sh[p]; } break;                                // adjacent equal pair
+        case 6: { sh[15] = sh[1]; if (pos(0, 2)) sh[8] = sh[1]; } break;                                                        // first = last data word
+        case 7: { int n = pos(1, 4); for (int j = 0; j < n; j++) sh[pos(1, 16)] = special(); } break;                                // a few boundary indices
+        default: { for (int i = 1; i < 16; i++) sh[i] = sh[i] & (pos(0, 2) ? 0x7FEu : 0x401u); } break;                                // sparse bit patterns
+        }
+        switch (pos(0, 8)) {   // relations between the coin and the words
+        case 0: coin = sh[1]; break; case 1: coin = sh[pos(2, 16)]; break; case 2: coin = sh[1] ^ 2047u; break; case 3: coin = special(); break; default: break;
+        }
+        sh[2] &= ~1u;
+        int target = pos(0, 6);   // relations between the check word and the rest: exactly one value of the last data word gives each check word
+        if (target < 4) { unsigned want = target == 0 ? 0u : target == 1 ? 2047u : target == 2 ? sh[pos(1, 15)] : coin;
+            for (unsigned v = 0; v < 2048; v++) { auto t = sh; t[15] = v; if (check_of_shown(t, coin) == want) { sh = t; break; } } }
+        model::Seed ms = seed_showing(sh, coin); SeedCoin r; r.sec.assign(ms.secret.begin(), ms.secret.begin() + 19); r.bd = (int)ms.birthday; r.feat = ms.features & 0x17u; r.coin = (int)coin; r.patterned = true; return r;
+    });
+}
+// the usual mix: mostly independent uniform / edge-weighted fields, one case in six patterned at the word level
+inline Gen<SeedCoin> seed_coin() {
+    return rc::gen::weightedOneOf<SeedCoin>({{5, rc::gen::exec([]() { SeedCoin r; r.sec = *secret19(); r.bd = *birthday(); r.feat = *rc::gen::resize(100, rc::gen::inRange<unsigned>(0, 32)) & 0x17u; r.coin = *::g::coin(); return r; })}, {1, patterned_seed()}});
+}
 } // namespace g
